@@ -29,7 +29,8 @@ MAX_TIMEOUTS = {"quick": 1, "thorough": 20}
 REQUIRED = {"supplied_atoms_checked": 2000, "centre_only_residues": 100, "generated_residues": 300,
             "prefix_runs": 20, "build_res_runs": 15, "ignore_runs": 25, "failed_attempts_seen": 40,
             "supplied_checks_after_removal": 200, "ignore_positions": 3,
-            "meta_build_res_runs": 8, "injected_step_schedules": 30}
+            "meta_build_res_runs": 8, "injected_step_schedules": 30, "atoms_and_centres_runs": 20,
+            "pdb_inputs_with_three_or_more_molecules": 10}
 
 
 def plan(tier, seed):
@@ -49,7 +50,7 @@ def run_case(cid, rng, workdir):
     text = T.render_top(sysd)
     with open(os.path.join(workdir, "s.top"), "w") as fh:
         fh.write(text)
-    kw, info = C03.make_options(rng, sysd, workdir, res, allow=("c_full", "c_prefix", "c_prefix", "c_res", "c_res", "mc", "mc_res"))
+    kw, info = C03.make_options(rng, sysd, workdir, res, allow=("c_full", "c_prefix", "c_prefix", "c_res", "c_res", "mc", "mc_res", "c_mc"))
     if kw is None:
         res["status"] = "rejected"
         return res
@@ -88,7 +89,7 @@ def run_case(cid, rng, workdir):
     cen_keys = {(g["mol"], g["res"]): c for g, c in info["centres"]}
     ngen = 0
     bump(res, {"c_prefix": "prefix_runs", "c_res": "build_res_runs", "mc": "meta_runs", "c_full": "full_runs",
-               "mc_res": "meta_build_res_runs"}[info["mode"]])
+               "mc_res": "meta_build_res_runs", "c_mc": "atoms_and_centres_runs"}[info["mode"]])
     for g in groups:
         key = (g["mol"], g["res"])
         if key in sup_keys:
